@@ -116,6 +116,9 @@ pub enum QKind {
     Prefix(usize),
     Random,
     Base,
+    /// values an implementation may use internally as placeholders or that
+    /// appear inside proofs: all zeros, sha256 of 32 zero bytes, all ones
+    Special,
 }
 
 /// about 20 query items: members, for one anchor every k in POS a value
@@ -144,5 +147,12 @@ pub fn gen_queries(s: &mut Src, g: &GenSet) -> Vec<(QKind, Leaf)> {
     flip(&mut b, *s.pick(&POS));
     out.push((QKind::Base, b));
     out.push((QKind::Random, s.array::<32>()));
+    out.push((QKind::Special, [0u8; 32]));
+    out.push((QKind::Special, [0xffu8; 32]));
+    {
+        use sha2::{Digest, Sha256};
+        let h: [u8; 32] = Sha256::digest([0u8; 32]).into();
+        out.push((QKind::Special, h));
+    }
     out
 }
